@@ -61,7 +61,9 @@ BRANCHES = (['method:' + m for m in METHODS] +
              'input:array', 'input:rdms', 'input:mixed', 'perm', 'ties', 'no_ties', 'negative',
              'zero_norm', 'kendall_nan', 'stack>1', 'self_pair', 'kind:getv', 'kind:ranks',
              'fast_path_vs_V', 'input:array1d', 'kind:reject', 'reject:method', 'reject:shape',
-             'getv:matrix_get_v', 'bures:second_way'])
+             'getv:matrix_get_v', 'bures:second_way',
+             'input:rdms_sq', 'dtype:int-int', 'dtype:int-float', 'dtype:float-float', 'dtype:float32',
+             'dtype:bool', 'layout:C', 'layout:F', 'layout:strided'])
 ASSUMPTIONS = [
     'IEEE evaluation of either side is within the stated tolerance of the real value '
     '(inputs are small integers / quarters, n <= 7, well-conditioned sigma_k)',
@@ -123,10 +125,39 @@ def _mat_out(m):
             for row in np.asarray(m, dtype=float).tolist()]
 
 
-def _call(x, y, method, sigma, form):
+DTYPES = {'float64': np.float64, 'float32': np.float32, 'int64': np.int64, 'int32': np.int32,
+          'bool': np.bool_}
+
+
+def dtype_ok(stack, dtype):
+    """can every value of the stack be stored exactly in that numpy dtype?"""
+    vals = [unrat(v) for r in stack for v in r]
+    if dtype == 'float64':
+        return True
+    if dtype == 'float32':
+        return all(F(float(np.float32(float(v)))) == v for v in vals)
+    if dtype == 'bool':
+        return all(v in (0, 1) for v in vals)
+    return all(v.denominator == 1 and abs(v) < 2 ** 31 for v in vals)
+
+
+def _typed(stack, dtype, layout):
+    """the stack as a 2-D ndarray of the given dtype and memory layout (same values)"""
+    a = _arr(stack).astype(DTYPES[dtype])
+    if layout == 'F':
+        a = np.asfortranarray(a)
+    elif layout == 'strided':
+        big = np.zeros((2 * a.shape[0], 2 * a.shape[1] + 1), dtype=a.dtype)
+        big[::2, 1::2] = a
+        a = big[::2, 1::2]            # non-contiguous view
+    return a
+
+
+def _call(x, y, method, sigma, form, dtypes=('float64', 'float64'), layout='C'):
     from rsatoolbox.rdm import RDMs
+    from scipy.spatial.distance import squareform
     try:
-        xa, ya = _arr(x), _arr(y)
+        xa, ya = _typed(x, dtypes[0], layout), _typed(y, dtypes[1], layout)
         if form == 'array1d':        # a single RDM passed as a 1-D vector (`reshape(1, -1)` branch)
             xa = xa[0] if len(x) == 1 else xa
             ya = ya[0] if len(y) == 1 else ya
@@ -134,6 +165,9 @@ def _call(x, y, method, sigma, form):
             xa = RDMs(dissimilarities=xa)
         if form == 'rdms':
             ya = RDMs(dissimilarities=ya)
+        if form == 'rdms_sq':        # RDMs objects built from stacks of square matrices
+            xa = RDMs(dissimilarities=np.array([squareform(v) for v in xa]))
+            ya = RDMs(dissimilarities=np.array([squareform(v) for v in ya]))
         with np.errstate(all='ignore'):
             import warnings
             with warnings.catch_warnings():
@@ -142,6 +176,10 @@ def _call(x, y, method, sigma, form):
     except (ValueError, TypeError, AssertionError, IndexError, ZeroDivisionError,
             np.linalg.LinAlgError, AttributeError) as exc:
         return {'exc': type(exc).__name__}
+
+
+def case_dtypes(case):
+    return tuple(case.get('dtypes', ('float64', 'float64')))
 
 
 # ------------------------------------------------------------------ generation
@@ -204,6 +242,8 @@ def _compare_case(rng, method, nmax):
         y = [_euclid(rng, n) for _ in range(ny)]
     else:
         styles = ['ties', 'ties', 'neg', 'quarters', 'distinct', 'distinct', 'binary']
+        if rng.random() < 0.1:
+            styles = ['binary']          # 0/1 (categorical) RDMs: may be passed as bool arrays
         x = [_vector(rng, m, rng.choice(styles)) for _ in range(nx)]
         y = [_vector(rng, m, rng.choice(styles)) for _ in range(ny)]
         r = rng.random()
@@ -219,11 +259,25 @@ def _compare_case(rng, method, nmax):
     perm = list(range(n))
     if rng.random() < 0.7:
         rng.shuffle(perm)
-    form = rng.choice(['array', 'rdms', 'rdms', 'mixed'])
+    form = rng.choice(['array', 'array', 'rdms', 'rdms', 'mixed', 'rdms_sq'])
     if (nx == 1 or ny == 1) and rng.random() < 0.35:
         form = 'array1d'
+    # numpy dtype of each stack drawn independently (only dtypes that hold the values exactly),
+    # and the memory layout of the arrays handed to the library
+    wish = ['float64', 'float64', 'float32', 'int64', 'int64', 'int32', 'bool']
+    dtypes = []
+    for st in (x, y):
+        d = rng.choice(wish)
+        if dtype_ok(st, 'bool') and rng.random() < 0.5:
+            d = 'bool'
+        if d == 'bool' and not dtype_ok(st, 'bool'):
+            d = 'int64'
+        dtypes.append(d if dtype_ok(st, d) else 'float64')
+    if dtype_ok(x, 'int64') and dtype_ok(y, 'int64') and rng.random() < 0.25:
+        dtypes = [rng.choice(['int64', 'int32']), rng.choice(['int64', 'int32'])]
+    layout = rng.choice(['C', 'C', 'F', 'strided'])
     return {'kind': 'compare', 'method': method, 'n': n, 'x': x, 'y': y, 'sigma': sigma,
-            'form': form,
+            'form': form, 'dtypes': dtypes, 'layout': layout,
             'perm': None if perm == list(range(n)) else perm}
 
 
@@ -265,7 +319,9 @@ def generate(rng, tier):
         for method in ('tau-a', 'kendall', 'rho-a', 'spearman'):
             for a in vals:
                 yield {'kind': 'compare', 'method': method, 'n': 3, 'x': [list(a)],
-                       'y': [list(b) for b in vals], 'sigma': None, 'form': 'array', 'perm': [2, 0, 1]}
+                       'y': [list(b) for b in vals], 'sigma': None, 'form': 'array', 'perm': [2, 0, 1],
+                       'dtypes': ['int64', 'int64'] if sum(a) % 2 else ['float64', 'int32'],
+                       'layout': 'C'}
 
 
 def search(rng, tier):
@@ -295,13 +351,14 @@ def run_impl(case):
         import scipy.stats
         return [rat(F(float(a))) for a in scipy.stats.rankdata(np.array([_fl(v) for v in case['x']]))]
     n, perm = case['n'], case['perm']
-    out = {'array': _call(case['x'], case['y'], case['method'], case['sigma'], 'array')}
+    dt, lay = case_dtypes(case), case.get('layout', 'C')
+    out = {'array': _call(case['x'], case['y'], case['method'], case['sigma'], 'array', dt, lay)}
     if case['form'] != 'array':
-        out[case['form']] = _call(case['x'], case['y'], case['method'], case['sigma'], case['form'])
+        out[case['form']] = _call(case['x'], case['y'], case['method'], case['sigma'], case['form'], dt, lay)
     if perm is not None:
         xp = [permute_vec(v, n, perm) for v in case['x']]
         yp = [permute_vec(v, n, perm) for v in case['y']]
-        out['perm'] = _call(xp, yp, case['method'], permute_sigma(case['sigma'], perm), case['form'])
+        out['perm'] = _call(xp, yp, case['method'], permute_sigma(case['sigma'], perm), case['form'], dt, lay)
     if case['method'].startswith('bures'):
         # the alternative implementations kept beside the ones `compare` calls
         f = _cmp._bures_similarity_second_way if case['method'] == 'bures' else _cmp._sq_bures_metric_second_way
@@ -376,6 +433,9 @@ def model_result(case, answers):
 
 def tolerance(case):
     m = case['method']
+    if 'float32' in case_dtypes(case):
+        base = 2e-4 if (m in ('corr_cov', 'cosine_cov') and case['sigma'] is not None) else 2e-5
+        return base, base      # numpy evaluates float32 stacks (partly) in single precision
     if m.startswith('bures'):
         return 1e-5, 1e-5
     if m in ('corr_cov', 'cosine_cov') and case['sigma'] is not None:
@@ -426,7 +486,7 @@ def compare(case, impl, model):
     rtol, atol = tolerance(case)
     und = case['method'] in ('corr_cov', 'cosine_cov')
     for key, mkey in (('array', 'base'), ('rdms', 'base'), ('mixed', 'base'), ('array1d', 'base'),
-                      ('second_way', 'base'), ('perm', 'perm')):
+                      ('rdms_sq', 'base'), ('second_way', 'base'), ('perm', 'perm')):
         if key in impl:
             d = _diff_matrix(impl[key], model[mkey], rtol, atol, und)
             if d:
@@ -474,6 +534,14 @@ def features(case, impl):
     vs = case['x'] + case['y']
     sk = sigma_kind(case['sigma'])
     br = ['method:' + case['method'], 'input:' + case['form']]
+    dt = case_dtypes(case)
+    kinds = ['int' if d.startswith('int') else 'bool' if d == 'bool' else 'float' for d in dt]
+    pair = '-'.join(sorted(kinds))
+    br.append('dtype:' + ('int-int' if pair == 'int-int' else 'int-float' if pair == 'float-int'
+                          else 'float-float' if pair == 'float-float' else 'bool'))
+    if 'float32' in dt:
+        br.append('dtype:float32')
+    br.append('layout:' + case.get('layout', 'C'))
     if case['method'].startswith('bures'):
         br.append('bures:second_way')
     if case['method'] in ('corr_cov', 'cosine_cov'):
@@ -496,6 +564,8 @@ def features(case, impl):
     return {'kind': 'compare', 'method': case['method'], 'n': case['n'], 'sigma': sk,
             'form': case['form'], 'permuted': case['perm'] is not None,
             'constant_rdm': any(_is_const(v) for v in vs),
+            'dtype_x': dt[0], 'dtype_y': dt[1], 'dtype_pair': pair, 'layout': case.get('layout', 'C'),
+            'nonfloat_stack': any(k != 'float' for k in kinds),
             'n_x': len(case['x']), 'n_y': len(case['y']), 'branches': br}
 
 
@@ -519,7 +589,11 @@ def oracle(case):
         return orc.check_ranks(case, run_impl(case))
     if case['kind'] == 'reject':
         return orc.check_reject(case, run_impl(case))
-    return orc.check_compare(case, _call, permute_vec, permute_sigma)
+    dt, lay = case_dtypes(case), case.get('layout', 'C')
+
+    def call(x, y, method, sigma, form, which=(0, 1)):
+        return _call(x, y, method, sigma, form, (dt[which[0]], dt[which[1]]), lay)
+    return orc.check_compare(case, call, permute_vec, permute_sigma)
 
 
 def shrink(case, still_fails):
@@ -537,8 +611,9 @@ def shrink(case, still_fails):
                     break
             if done:
                 break
-    for key, val in (('perm', None), ('form', 'array')):
-        if best[key] != val:
+    for key, val in (('perm', None), ('form', 'array'), ('layout', 'C'),
+                     ('dtypes', ['float64', 'float64'])):
+        if best.get(key) != val:
             c = dict(best, **{key: val})
             if still_fails(c):
                 best = c
